@@ -351,6 +351,9 @@ def gen_history(rng, regs, n, scopes, depth=0, w=None, next_obj=None):
           b['val'] = {'macro': rng.choice(['m1', 'm2'])}
         else:
           b['val'] = {'ref': [[], rng.choice(regs)['_selector'], False]}
+        if rr >= 0.4 and rng.random() < 0.3:
+          # ... sitting in a key of a dict (or of a dict inside a list) instead of being the value itself
+          b['val'] = {'d': [[b['val'], 1]]} if rng.random() < 0.6 else {'l': [0, {'d': [[b['val'], {'s': 'v'}]]}]}
         if b['_form'] not in ('text', 'block'):
           b['_form'] = 'text'
           b['block'] = False
